@@ -30,7 +30,7 @@ for p in $props; do
   first=$(echo "$r" | grep -A1 '^VIOLATION' | grep obligation | head -2 | cut -c1-200 | tr '\n' '|')
   results="$results $p:exit=$rc,violations=$v [$first]"
 done
-git -C /repo checkout -- . 
+git -C /repo apply -R $out/patch.diff || echo "WARNING: could not revert patch in /repo"
 rm -rf /tmp/seed-evidence
 echo "checks:$results"
 cat > $out/meta.json <<META
